@@ -19,8 +19,7 @@ class C15(Check):
             '{right password, wrong password, key file then password (fail, ok), all fail, none} x subsystem acceptance, and a slice of it again with an OpenSSH configuration file (StrictHostKeyChecking no / accept-new / off, ...) - run through the REAL '
             'manager.connect_ssh / SSHSession.connect / _auth with real paramiko keys and a real known_hosts file against a recording '
             'transport; plus real TLS handshakes on loopback: right CA, wrong CA, wrong host name, peer named by an IPv4 / IPv6 literal, a certificate of the right CA issued to another device, host-name check off. '
-            'Callbacks that decide by fingerprint and host; known_hosts listing the key under the peer ADDRESS only (real TCP loopback) or in a negated wildcard line; protocol constants x name mismatch with checking on against a TLS server that keeps accepting. '
-            'Non-trivial = verification on or authentication attempted; distinct by configuration.')
+            'Callbacks that decide by fingerprint and host; known_hosts listing the key under the peer ADDRESS only (real TCP loopback) or in a negated wildcard line; protocol constants x name mismatch with checking on against a TLS server that keeps accepting. Non-trivial = verification on or authentication attempted; distinct by configuration.')
     TRUST = ['paramiko key comparison / HostKeys.check and OpenSSL certificate validation are the environment (exercised for real, not modelled)']
 
     def cases(self, rng, tier):
